@@ -58,9 +58,11 @@ class HttpScheduler(sched.Scheduler):
         return t
 
 
-def answer(resp):
+def answer(resp, want_etag=None, flags=None, key=None):
     cls, cond = alpha.response_class(resp)
     if cls == "ok":
+        if want_etag is not None and flags is not None:
+            flags[key] = (resp.header("ETag") or "").strip('"') == want_etag
         return "ok"
     if cls == "precond":
         return "DuplicateUid" if cond == "no-uid-conflict" else "InvalidETag"
@@ -88,25 +90,28 @@ def run_http_schedule(opa, opb, plan, etags_cache={}):
                 etags_cache[b] = ms.import_one("x.ics", "text/calendar", [rd.CONTENT[b]()])[1]
         path = w.fspath(base.rstrip("/"))
 
-        def mk(op):
+        flags = {}
+
+        def mk(op, key=None):
             name = base + rd.NAMES[op["n"]]
             hdrs = []
             if op["cond"]:
                 hdrs.append(("If-Match", '"%s"' % etags_cache[op["cond"]]))
             if op["t"] == "put":
                 data = rd.CONTENT[op["b"]]()
-                return lambda: answer(w.request("PUT", name, hdrs + [("Content-Type", "text/calendar")], data))
+                return lambda: answer(w.request("PUT", name, hdrs + [("Content-Type", "text/calendar")], data),
+                                      etags_cache[op["b"]], flags, key)
             return lambda: answer(w.request("DELETE", name, hdrs))
 
         sc = HttpScheduler(path)
         with sc:
-            ta = sc.request("A", mk(opa))
+            ta = sc.request("A", mk(opa, "A"))
             sc.wait_parked("A")
             started_b = False
             tb = None
             for (wk, n) in plan:
                 if wk == "B" and not started_b:
-                    tb = sc.request("B", mk(opb))
+                    tb = sc.request("B", mk(opb, "B"))
                     started_b = True
                     sc.wait_parked("B")
                 if n is None:
@@ -114,7 +119,7 @@ def run_http_schedule(opa, opb, plan, etags_cache={}):
                 else:
                     sc.step(wk, n)
             if not started_b:
-                tb = sc.request("B", mk(opb))
+                tb = sc.request("B", mk(opb, "B"))
                 sc.wait_parked("B")
             sc.finish("A")
             sc.finish("B")
@@ -147,6 +152,7 @@ def run_http_schedule(opa, opb, plan, etags_cache={}):
         return {"kind": "tree", "shared": True, "init": {"a": 1},
                 "ops": {"A": opa, "B": opb, "C": {"t": "none", "n": "", "b": 0, "cond": 0}},
                 "res": dict(res, C="none"), "final": final, "mid": final, "views_ok": True,
+                "etag_ok": {x: bool(flags.get(x, True)) for x in ("A", "B", "C")},
                 "err": {x: res[x].startswith("Error:") for x in res}, "phase": phase,
                 "opens": opens, "fsck": fsck, "clean": clean, "stuck": sc.stuck,
                 "sched": [[x, g] for (x, g) in sc.trace],
